@@ -1,5 +1,284 @@
 import Driver.Util
+import KavaVerif.Model.Hard
+/-!
+  C08 driver.  One self-contained case per line (written by harness/cmd/c08):
+
+  c08.op kind cfg minBorrow pre a b coins extra "=>" result post aucs syncedPre syncedPost probe
+    kind   ∈ deposit | withdraw | borrow | repay | liquidate | begin
+    cfg    = per denom `cf,price,ltv,reserveFactor,keeperReward,hasMax,maxLimit` joined by `;` (Dec mantissas)
+    pre/post = dep|depIdx|bor|borIdx|supIdx|brwIdx|supplied|borrowed|reserves|cash|bal|accr
+               (user rows joined by `;`, denoms by `,`, `n` = no entry)
+    a, b   = user indices (repay: sender, owner; liquidate: keeper, borrower)
+    extra  = begin: `now;phi…;apyPositive…` (the real CalculateBorrowInterestFactor outputs), else `-`
+    result = ok | err:<codespace>/<code> | panic
+    aucs   = auctions started by the operation `lotDenom:lot:bidDenom:maxBid,…`
+    synced = GetSyncedDeposit rows | GetSyncedBorrow rows (`p` = the query panicked)
+    probe  = result of an immediate AttemptKeeperLiquidation in a discarded context (after ok borrow/withdraw)
+
+  The handler (1) runs the Lean model on the observed pre-state and compares result class, error code,
+  post-state and auctions (MISMATCH), and (2) evaluates the property predicates on the implementation's
+  own observation (PREDFAIL <C08_name> <tag>).
+-/
 namespace Drv.C08
-/-- handlers of property C08: (command name, handler) -/
-def handlers : List (String × Handler) := []
+open KV KV.Hard
+
+/-! ### parsing -/
+
+def optInt? (s : String) : Option (Option Int) :=
+  let t := s.trimAscii.toString
+  if t == "n" then some none else (int? t).map some
+
+def optInts? (s : String) : Option (List (Option Int)) := (s.splitOn ",").mapM optInt?
+
+def mat? (s : String) : Option (List (List Int)) := (s.splitOn ";").mapM ints?
+def optMat? (s : String) : Option (List (List (Option Int))) := (s.splitOn ";").mapM optInts?
+
+def fn (l : List Int) : Nat → Int := fun i => l.getD i 0
+def fn2 (m : List (List Int)) : Nat → Nat → Int := fun u d => (m.getD u []).getD d 0
+def ofn (l : List (Option Int)) : Nat → Option Int := fun i => l.getD i none
+def ofn2 (m : List (List (Option Int))) : Nat → Nat → Option Int := fun u d => (m.getD u []).getD d none
+
+def market? (s : String) : Option Market :=
+  match s.splitOn "," with
+  | [cf, price, ltv, rf, kr, hm, ml] =>
+    match int? cf, int? price, int? ltv, int? rf, int? kr, bool? hm, int? ml with
+    | some cf, some price, some ltv, some rf, some kr, some hm, some ml =>
+      some ⟨cf, ⟨price⟩, ⟨ltv⟩, ⟨rf⟩, ⟨kr⟩, hm, ⟨ml⟩⟩
+    | _, _, _, _, _, _, _ => none
+  | _ => none
+
+def cfg? (ms minB : String) : Option Cfg :=
+  match (ms.splitOn ";").mapM market?, int? minB with
+  | some l, some mb => some ⟨List.range l.length, fun d => l.getD d default, ⟨mb⟩⟩
+  | _, _ => none
+
+def st? (s : String) : Option St :=
+  match s.splitOn "|" with
+  | [dep, depIdx, bor, borIdx, supIdx, brwIdx, supplied, borrowed, reserves, cash, bal, accr] =>
+    match mat? dep, optMat? depIdx, mat? bor, optMat? borIdx, optInts? supIdx, optInts? brwIdx,
+          ints? supplied, ints? borrowed, ints? reserves, ints? cash, mat? bal, optInts? accr with
+    | some dep, some depIdx, some bor, some borIdx, some supIdx, some brwIdx,
+      some supplied, some borrowed, some reserves, some cash, some bal, some accr =>
+      some { dep := fn2 dep, depIdx := ofn2 depIdx, bor := fn2 bor, borIdx := ofn2 borIdx, supIdx := ofn supIdx,
+             brwIdx := ofn brwIdx, supplied := fn supplied, borrowed := fn borrowed, reserves := fn reserves,
+             cash := fn cash, bal := fn2 bal, accr := ofn accr, aucs := [] }
+    | _, _, _, _, _, _, _, _, _, _, _, _ => none
+  | _ => none
+
+/-! ### printing -/
+
+def showOpt (o : Option Int) : String := match o with | none => "n" | some v => toString v
+def rowS (nd : Nat) (f : Nat → Int) : String := ",".intercalate ((List.range nd).map (fun d => toString (f d)))
+def rowO (nd : Nat) (f : Nat → Option Int) : String := ",".intercalate ((List.range nd).map (fun d => showOpt (f d)))
+def matS (nu nd : Nat) (f : Nat → Nat → Int) : String := ";".intercalate ((List.range nu).map (fun u => rowS nd (f u)))
+def matO (nu nd : Nat) (f : Nat → Nat → Option Int) : String := ";".intercalate ((List.range nu).map (fun u => rowO nd (f u)))
+
+def comps (nu nd : Nat) (s : St) : List (String × String) :=
+  [("dep", matS nu nd s.dep), ("depIdx", matO nu nd s.depIdx), ("bor", matS nu nd s.bor), ("borIdx", matO nu nd s.borIdx),
+   ("supIdx", rowO nd s.supIdx), ("brwIdx", rowO nd s.brwIdx), ("supplied", rowS nd s.supplied),
+   ("borrowed", rowS nd s.borrowed), ("reserves", rowS nd s.reserves), ("cash", rowS nd s.cash),
+   ("bal", matS nu nd s.bal), ("accr", rowO nd s.accr)]
+
+def showAucs (l : List Auction) : String :=
+  if l.isEmpty then "-" else ",".intercalate (l.map (fun a => s!"{a.lotDenom}:{a.lot}:{a.bidDenom}:{a.maxBid}"))
+
+def errCode : Err → String
+  | .invalidDepositDenom => "hard/2" | .depositNotFound => "hard/3" | .invalidWithdrawAmount => "hard/4"
+  | .depositsNotFound => "hard/10" | .insufficientLtv => "hard/11" | .marketNotFound => "hard/12"
+  | .priceNotFound => "hard/13" | .borrowExceedsBalance => "hard/14" | .borrowedCoinsNotFound => "hard/15"
+  | .borrowLimit => "hard/17" | .borrowEmptyCoins => "hard/18" | .borrowNotFound => "hard/19"
+  | .insufficientBalanceForRepay => "hard/21" | .notLiquidatable => "hard/22" | .insufficientCoins => "hard/23"
+  | .suppliedCoinsNotFound => "hard/25" | .invalidWithdrawDenom => "hard/27" | .invalidRepaymentDenom => "hard/28"
+  | .invalidIndexFactorDenom => "hard/29" | .belowMinimumBorrow => "hard/30" | .exceedsProtocolBorrowable => "hard/31"
+  | .reservesExceedCash => "hard/32" | .insufficientFunds => "sdk/5" | .noValidPrice => "pricefeed/4"
+
+def resS : Res St → String
+  | .ok _ => "ok"
+  | .err e => "err:" ++ errCode e
+  | .panic => "panic"
+
+/-! ### running the model -/
+
+def beginBlock (cfg : Cfg) (s : St) (now : Int) (phis : List Int) (apys : List Bool) : Res St :=
+  cfg.ds.foldl (fun acc d => match acc with
+    | .ok s => accrue cfg s d now ⟨phis.getD d P⟩ (apys.getD d false)
+    | r => r) (.ok s)
+
+def runOp (kind : String) (cfg : Cfg) (s : St) (a b : Nat) (coins : Coins) (extra : String) : Option (Res St) :=
+  match kind with
+  | "deposit" => some (deposit cfg s a coins)
+  | "withdraw" => some (withdraw cfg s a coins)
+  | "borrow" => some (borrow cfg s a coins)
+  | "repay" => some (repay cfg s a b coins)
+  | "liquidate" => some (liquidate cfg s a b)
+  | "begin" =>
+    match extra.splitOn ";" with
+    | [now, phis, apys] =>
+      match int? now, ints? phis, (apys.splitOn ",").mapM bool? with
+      | some now, some phis, some apys => some (beginBlock cfg s now phis apys)
+      | _, _, _ => none
+    | _ => none
+  | _ => none
+
+def firstDiff : List (String × String) → List String → String
+  | (n, m) :: t, i :: ti => if m == i then firstDiff t ti else mismatch n m i
+  | _, _ => "ok"
+
+/-! ### property predicates on the implementation's observation -/
+
+def rows (nu : Nat) : List Nat := List.range nu
+
+/-- records of every user except the listed ones are identical in the two observations -/
+def frameOk (nu nd : Nat) (pre post : St) (touched : List Nat) : Bool :=
+  (rows nu).all fun u => touched.contains u ||
+    (rowS nd (pre.dep u) == rowS nd (post.dep u) && rowO nd (pre.depIdx u) == rowO nd (post.depIdx u) &&
+     rowS nd (pre.bor u) == rowS nd (post.bor u) && rowO nd (pre.borIdx u) == rowO nd (post.borIdx u))
+
+def withinB (cfg : Cfg) (dep bor : Coins) : Option Bool :=
+  match isWithinLtv cfg dep bor with
+  | .ok b => some b
+  | _ => none
+
+/-- synced rows `a,b,c;…` or `p` per user -/
+def syncedRows (s : String) : List (Option (List Int)) :=
+  (s.splitOn ";").map (fun r => if r.trimAscii.toString == "p" then none else ints? r)
+
+def monoRows (pre post : List (Option (List Int))) : Option String :=
+  let rec go : List (Option (List Int)) → List (Option (List Int)) → Option String
+    | some a :: ta, some b :: tb =>
+      if (List.zip a b).any (fun (x, y) => decide (y < x)) then some "decreased" else go ta tb
+    | some _ :: _, none :: _ => some "query-panics"
+    | _ :: ta, _ :: tb => go ta tb
+    | _, _ => none
+  go pre post
+
+def predBegin (nd : Nat) (pre post : St) (spre spost : String) : String :=
+  let ds := List.range nd
+  let lt (a b : Option Int) : Bool := match a, b with | some x, some y => decide (y < x) | _, _ => false
+  match ds.find? (fun d => lt (pre.brwIdx d) (post.brwIdx d)) with
+  | some d => predfail "C08_borrow_index_monotone" s!"denom={d}"
+  | none =>
+    match ds.find? (fun d => lt (pre.supIdx d) (post.supIdx d)) with
+    | some d =>
+      let tag := if pre.reserves d > pre.cash d + pre.borrowed d then "reserves-exceed-cash-plus-borrows" else "other"
+      predfail "C08_supply_index_monotone" s!"{tag} denom={d} pre={showOpt (pre.supIdx d)} post={showOpt (post.supIdx d)}"
+    | none =>
+      match spre.splitOn "|", spost.splitOn "|" with
+      | [dp, bp], [dq, bq] =>
+        match monoRows (syncedRows dp) (syncedRows dq) with
+        | some why => predfail "C08_synced_monotone" s!"deposit-{why}"
+        | none =>
+          match monoRows (syncedRows bp) (syncedRows bq) with
+          | some why => predfail "C08_synced_monotone" s!"borrow-{why}"
+          | none => "ok"
+      | _, _ => badInput "synced"
+
+/-- the borrower's position as `AttemptKeeperLiquidation` syncs it (model sync on the observed pre-state) -/
+def syncedPos (cfg : Cfg) (pre : St) (u : Nat) : Option (Coins × Coins) :=
+  match syncBorrow cfg pre u with
+  | .ok s1 => match syncSupply cfg s1 u with
+    | .ok s2 => some (s2.dep u, s2.bor u)
+    | _ => none
+  | _ => none
+
+def parseAucs (s : String) : List Auction :=
+  (strs s).filterMap fun a => match a.splitOn ":" with
+    | [ld, lot, bd, bid] => match nat? ld, int? lot, nat? bd, int? bid with
+      | some ld, some lot, some bd, some bid => some ⟨ld, lot, bd, bid⟩
+      | _, _, _, _ => none
+    | _ => none
+
+def predLiquidate (cfg : Cfg) (nu nd : Nat) (pre post : St) (keeper borrower : Nat) (aucs : String) : String :=
+  match syncedPos cfg pre borrower with
+  | none => "ok"
+  | some (dep, bor) =>
+    if withinB cfg dep bor == some true then predfail "C08_within_ltv_not_liquidatable" "liquidated-within-range"
+    else if !frameOk nu nd pre post [borrower] then predfail "C08_liquidation_frame" "other-user-changed"
+    else if (List.range nd).any (fun d => post.dep borrower d != 0 || post.bor borrower d != 0) then
+      predfail "C08_liquidation_frame" "record-not-deleted"
+    else
+      let lots : Coins := fun d => ((parseAucs aucs).filter (fun a => a.lotDenom == d)).foldl (fun acc a => acc + a.lot) 0
+      let dK : Coins := fun d => post.bal keeper d - pre.bal keeper d
+      let dB : Coins := fun d => post.bal borrower d - pre.bal borrower d
+      let out : Coins := fun d => if keeper == borrower then lots d + dK d else lots d + dK d + dB d
+      let ds := List.range nd
+      if (rows nu).any (fun u => u != keeper && u != borrower && rowS nd (pre.bal u) != rowS nd (post.bal u)) then
+        predfail "C08_liquidation_frame" "bystander-balance-changed"
+      else if keeper != borrower && ds.any (fun d => dK d != keeperReward cfg dep d) then
+        predfail "C08_liquidation_frame" "keeper-reward-not-floor"
+      else if ds.any (fun d => decide (dK d < 0) || decide (dB d < 0)) then predfail "C08_liquidation_frame" "negative-payout"
+      else if ds.any (fun d => decide (out d > dep d)) then predfail "C08_liquidation_frame" "more-than-deposit-paid-out"
+      else if ds.any (fun d => decide (pre.cash d - post.cash d > dep d)) then predfail "C08_liquidation_frame" "more-than-deposit-left-module"
+      else if ds.any (fun d => decide (pre.cash d - post.cash d != out d)) then predfail "C08_liquidation_frame" "cash-not-conserved"
+      else "ok"
+
+def predBorrow (cfg : Cfg) (nd : Nat) (post : St) (u : Nat) (coins : Coins) (probe : String) : String :=
+  let excess := valueOf cfg (post.bor u) - borrowable cfg (post.dep u)
+  let n : Int := ((supp cfg.ds coins).length : Nat)
+  if probe == "ok" then
+    let tag := if 0 < excess && excess ≤ n then "ulp-rounding" else "beyond-rounding"
+    predfail "C08_borrow_within_ltv" s!"{tag} excess={excess} denoms={n}"
+  else if probe == "err:hard/22" && withinB cfg (post.dep u) (post.bor u) == some false then
+    mismatch "probe" "liquidatable" probe
+  else "ok"
+
+def predWithdraw (cfg : Cfg) (nd : Nat) (pre post : St) (u : Nat) (coins : Coins) (probe : String) : String :=
+  if probe == "ok" then predfail "C08_withdraw_within_ltv" "liquidatable-after-withdraw"
+  else if withinB cfg (post.dep u) (post.bor u) != some true then predfail "C08_withdraw_within_ltv" "outside-range-after-withdraw"
+  else
+    match syncedPos cfg pre u with
+    | none => "ok"
+    | some (dep, _) =>
+      if (List.range nd).any (fun d => let w := post.bal u d - pre.bal u d; decide (w > dep d) || decide (w > coins d) || decide (w < 0)) then
+        predfail "C08_caps" "withdraw-exceeds-synced-deposit"
+      else "ok"
+
+def predRepay (cfg : Cfg) (nd : Nat) (pre post : St) (sender owner : Nat) (coins : Coins) : String :=
+  match syncBorrow cfg pre owner with
+  | .ok s1 =>
+    if (List.range nd).any (fun d => let p := pre.bal sender d - post.bal sender d; decide (p > s1.bor owner d) || decide (p > coins d) || decide (p < 0)) then
+      predfail "C08_caps" "repay-exceeds-synced-borrow"
+    else "ok"
+  | _ => "ok"
+
+/-! ### the handler -/
+
+def handle : Handler
+  | [kind, cfgS, minB, preS, a, b, coinsS, extra, _, result, postS, aucs, spre, spost, probe] =>
+    match cfg? cfgS minB, st? preS, nat? a, nat? b, ints? coinsS with
+    | some cfg, some pre, some a, some b, some coinsL =>
+      let coins := fn coinsL
+      let nd := cfg.ds.length
+      let nu := (preS.splitOn "|").head!.splitOn ";" |>.length
+      match runOp kind cfg pre a b coins extra with
+      | none => badInput "op"
+      | some res =>
+        if resS res != result then mismatch "result" (resS res) result
+        else
+        match res with
+        | .ok s' =>
+          let cmp := firstDiff (comps nu nd s') (postS.splitOn "|")
+          if cmp != "ok" then cmp
+          else if showAucs s'.aucs != aucs then mismatch "aucs" (showAucs s'.aucs) aucs
+          else
+          match st? postS with
+          | none => badInput "post"
+          | some post =>
+            -- (2) predicates on the implementation's observation
+            match kind with
+            | "begin" => predBegin nd pre post spre spost
+            | "borrow" => if !frameOk nu nd pre post [a] then predfail "C08_frame" "borrow-touched-other-user" else predBorrow cfg nd post a coins probe
+            | "withdraw" => if !frameOk nu nd pre post [a] then predfail "C08_frame" "withdraw-touched-other-user" else predWithdraw cfg nd pre post a coins probe
+            | "repay" => if !frameOk nu nd pre post [b] then predfail "C08_frame" "repay-touched-other-user" else predRepay cfg nd pre post a b coins
+            | "deposit" => if !frameOk nu nd pre post [a] then predfail "C08_frame" "deposit-touched-other-user" else "ok"
+            | "liquidate" => predLiquidate cfg nu nd pre post a b aucs
+            | _ => "ok"
+        | _ =>
+          -- a refused liquidation of a position that the valuation puts outside the range is reported by the
+          -- correspondence (result codes agree); nothing else to check on failures
+          "ok"
+    | _, _, _, _, _ => badInput "parse"
+  | _ => badInput "arity"
+
+def handlers : List (String × Handler) := [("c08.op", handle)]
 end Drv.C08
